@@ -90,6 +90,22 @@ Proof.
   unfold allow_obs, allowance_data, entry_live_until. cbn. destruct (0 <? start); reflexivity.
 Qed.
 
+(* ---- an Advance leaves the flavour's extra getters alone ---- *)
+Lemma advance_keeps_extras_fail prev cur cl : advance_keeps_extras prev cur cl Fail = true.
+Proof. destruct cl; reflexivity. Qed.
+Lemma advance_keeps_extras_model c univ s cl s1 v evs prev :
+  exec c s cl = Ok (s1, v, evs) ->
+  o_extra prev = [] \/ o_extra prev = extras c univ s ->
+  advance_keeps_extras prev (observe c univ s1) cl (Ok v) = true.
+Proof.
+  intros E P. destruct cl; try reflexivity. cbn [advance_keeps_extras].
+  destruct P as [P|P]; rewrite P; [reflexivity|].
+  cbn [exec] in E. inv_ok. cbn [o_extra observe].
+  replace (extras c univ (w_now s (now s + n))) with (extras c univ s).
+  - rewrite list_eqb_refl; [apply orb_true_r|apply Z.eqb_refl].
+  - unfold extras. destruct (c_flav c); reflexivity.
+Qed.
+
 (* ---- sums over a universe outside of which every balance is zero ---- *)
 Lemma sum_over_getd_supp l u : NoDup (keys l) -> NoDup u -> (forall k, ~ In k u -> getd l k = 0) ->
   sum_over (getd l) u = sumv l.
